@@ -5,6 +5,7 @@ Auxiliary facts for the simulation proof: evalList, environments of closures for
 arm selection under lowering, function lookup under lowering.
 -/
 namespace Folang.Sem
+variable {md : Bool}
 
 theorem evalList_length {ε α β : Type} {f : ε → α → Res β} {env : ε} {es : List α} {t : Trace} {vs : List β}
     (h : evalList f env es = some (t, vs)) : vs.length = es.length := by
@@ -188,8 +189,8 @@ theorem geval_pures (GP : GProg) (rs : List String) (gargs : List GVal) (genv : 
 /-! ### arm selection and function lookup commute with lowering -/
 
 theorem pickArm_lower {arms : List Arm} {c : String} {bind : Option String} {b : Body}
-    (h : pickArm arms c = some (bind, b)) (hwf : wfArms arms = true) :
-    pickCase (lowerArms arms) c = some (bind, lowerB b) ∧ wfB b = true := by
+    (h : pickArm arms c = some (bind, b)) (hwf : wfArms md arms = true) :
+    pickCase (lowerArms md arms) c = some (bind, lowerB md b) ∧ wfB md b = true := by
   induction arms with
   | nil => simp [pickArm] at h
   | cons a arms ih =>
@@ -207,8 +208,8 @@ theorem pickArm_lower {arms : List Arm} {c : String} {bind : Option String} {b :
       exact ih h hwf.2
 
 theorem pickSArm_lower {arms : List SArm} {s : String} {b : Body}
-    (h : pickSArm arms s = some b) (hwf : wfSArms arms = true) :
-    pickSCase (lowerSArms arms) s = some (lowerB b) ∧ wfB b = true := by
+    (h : pickSArm arms s = some b) (hwf : wfSArms md arms = true) :
+    pickSCase (lowerSArms md arms) s = some (lowerB md b) ∧ wfB md b = true := by
   induction arms with
   | nil => simp [pickSArm] at h
   | cons a arms ih =>
@@ -231,9 +232,9 @@ theorem pickSArm_lower {arms : List SArm} {s : String} {b : Body}
         simp only [hp]
         exact ih h hwf.2
 
-theorem bindArm_rel {env : Env} {genv : GEnv} (he : ERel env genv) {bind : Option String} {payload : Option FO} {env' : Env}
+theorem bindArm_rel {env : Env} {genv : GEnv} (he : ERel md env genv) {bind : Option String} {payload : Option FO} {env' : Env}
     (h : bindArm SVal.fo env bind payload = some env') :
-    ∃ genv', bindArm GVal.fo genv bind payload = some genv' ∧ ERel env' genv' := by
+    ∃ genv', bindArm GVal.fo genv bind payload = some genv' ∧ ERel md env' genv' := by
   cases bind with
   | none => simp [bindArm] at h; subst h; exact ⟨genv, rfl, he⟩
   | some x =>
@@ -242,13 +243,13 @@ theorem bindArm_rel {env : Env} {genv : GEnv} (he : ERel env genv) {bind : Optio
     | some v => simp [bindArm] at h; subst h; exact ⟨(x, .fo v) :: genv, rfl, .cons (.fo v) he⟩
 
 theorem find_lower {P : Prog} {f : String} {d : FunDef} (h : P.find f = some d) :
-    (lowerProg P).find f = some (lowerFun d) := by
+    (lowerProg md P).find f = some (lowerFun md d) := by
   induction P with
   | nil => simp [Prog.find] at h
   | cons d' P ih =>
     simp only [Prog.find, List.find?_cons] at h
     simp only [lowerProg, List.map_cons, GProg.find, List.find?_cons]
-    have hn : (lowerFun d').name = d'.name := rfl
+    have hn : (lowerFun md d').name = d'.name := rfl
     rw [hn]
     cases hd : (d'.name == f) with
     | true =>
